@@ -3,7 +3,7 @@
 use crate::{api::*, corpus, report::Report, toks, util::{self, Rng}};
 use std::path::PathBuf;
 
-fn parse(text: &str) -> Result<(SyntaxTree, Defines), Error> {
+pub fn parse(text: &str) -> Result<(SyntaxTree, Defines), Error> {
     let d = no_defines(); let i = no_includes();
     parse_sv_str(text, PathBuf::from("t.sv"), &d, &i, false, false)
 }
@@ -12,8 +12,16 @@ const TRIVIA: &[&str] = &[" ", "  ", "\t", "\n", "\r\n", " \n ", "\x0c", " \x0c 
     "\n`celldefine\n", "\n`endcelldefine\n", "\n`default_nettype wire\n", "\n`timescale 1ns/1ps\n", "\n`unconnected_drive pull0\n", "\n`nounconnected_drive\n",
     "\n`line 7 \"f.v\" 0\n", "\n`define ZZ 1\n", "\n`undef ZZ\n"];
 
+/// run `f` on this thread with an unbounded packrat table, then restore the compile-time capacity
+fn with_unbounded_memo<T>(f: impl FnOnce() -> T) -> T {
+    sv_parser_parser::utils::verif::set_memo_capacity(None);
+    let r = f();
+    sv_parser_parser::utils::verif::set_memo_capacity(Some(1024));
+    r
+}
+
 /// rebuild the text from tokens, choosing a trivia run for every gap that had whitespace (or, with `all`, for every gap)
-fn relayout(src: &str, tk: &[toks::Tok], rng: &mut Rng, drop_tok: Option<usize>, plain: bool) -> String {
+pub fn relayout(src: &str, tk: &[toks::Tok], rng: &mut Rng, drop_tok: Option<usize>, plain: bool) -> String {
     let mut out = String::new();
     let mut prev_end = 0usize;
     for (i, t) in tk.iter().enumerate() {
@@ -71,11 +79,17 @@ pub fn main(args: &[String]) {
                 (Ok((ta, _)), Ok((tb, _))) => {
                     let pa = match preprocess_str(&a, PathBuf::from("t.sv"), &no_defines(), &no_includes(), false, false, 0, 0) { Ok((t, _)) => t.text().to_string(), Err(_) => a.clone() };
                     let pb = match preprocess_str(&b, PathBuf::from("t.sv"), &no_defines(), &no_includes(), false, false, 0, 0) { Ok((t, _)) => t.text().to_string(), Err(_) => b.clone() };
-                    if toks::shape(ta, &pa) != toks::shape(tb, &pb) { Err("both layouts are accepted but the trees differ (whitespace nodes disregarded)".into()) } else { Ok((true, b.clone())) }
+                    if toks::shape(ta, &pa) != toks::shape(tb, &pb) {
+                        // known finding `eviction-dependent-result` (D16): do the two layouts agree when nothing is evicted from the memo table?
+                        let agree_unbounded = with_unbounded_memo(|| match (parse(&a), parse(&b)) { (Ok((ua, _)), Ok((ub, _))) => toks::shape(&ua, &pa) == toks::shape(&ub, &pb), _ => false });
+                        Err(format!("both layouts are accepted but the trees differ (whitespace nodes disregarded){}", if agree_unbounded { " [the trees agree with an unbounded memo table]" } else { "" }))
+                    } else { Ok((true, b.clone())) }
                 }
                 (Err(Error::Parse(_)), Err(Error::Parse(_))) => Ok((false, b.clone())),
-                (Ok(_), Err(e)) => Err(format!("accepted with single blanks but rejected after re-layout: {}", err_str(e))),
-                (Err(e), Ok(_)) => Err(format!("rejected with single blanks ({}) but accepted after re-layout", err_str(e))),
+                (Ok(_), Err(e)) => { let agree = with_unbounded_memo(|| parse(&a).is_ok() == parse(&b).is_ok());
+                    Err(format!("accepted with single blanks but rejected after re-layout: {}{}", err_str(e), if agree { " [acceptance agrees with an unbounded memo table]" } else { "" })) }
+                (Err(e), Ok(_)) => { let agree = with_unbounded_memo(|| parse(&a).is_ok() == parse(&b).is_ok());
+                    Err(format!("rejected with single blanks ({}) but accepted after re-layout{}", err_str(e), if agree { " [acceptance agrees with an unbounded memo table]" } else { "" })) }
                 (Err(e1), Err(e2)) => { if std::mem::discriminant(e1) == std::mem::discriminant(e2) { Ok((false, b.clone())) } else { Err(format!("different errors: {} vs {}", err_str(e1), err_str(e2))) } }
             }.map_err(|m| format!("{}\n--- layout A:\n{}\n--- layout B:\n{}", m, a, b))
         }));
@@ -89,7 +103,7 @@ pub fn main(args: &[String]) {
             Err(m) => {
                 rep.case(src.as_bytes(), true);
                 let (what, detail) = match m.split_once("\n--- layout A:") { Some((w, d)) => (w.to_string(), d.to_string()), None => (m.clone(), String::new()) };
-                rep.violation(&what, &detail, "");
+                if what.contains("with an unbounded memo table]") { rep.known("eviction-dependent-result", &what, &detail, ""); } else { rep.violation(&what, &detail, ""); }
             }
         }
     }
